@@ -17,6 +17,7 @@ D10 == "D10-temporary-shared-across-activations"
 D20 == "D20-apply-extra-arguments-handed-to-hook"
 D21 == "D21-optional-call-loses-receiver"
 D22 == "D22-arguments-evaluated-before-absent-callee-throws"
+D24 == "D24-literal-spread-iterated-after-later-arguments"
 D7b == "D7b-nonconstant-sum-operand-omitted"
 
 Judge(r) ==
@@ -33,8 +34,16 @@ Judge(r) ==
       \* D22: f().m.call(g(), ..) with f().m nullish -- the input throws on reading .call before g() runs,
       \* the output has by then evaluated the this-argument and the arguments: same TypeError, the input's
       \* effects are a proper prefix of the output's.  Only in programs where the static decider saw that shape.
-      D22shape == /\ D22 \in sdev /\ r.inout = r.outout /\ r.inout.k = "throw" /\ r.inout.v = "TypeError"
-                  /\ IsPrefixOf(Strip(r.inlog), Strip(r.outlog)) /\ Len(Strip(r.outlog)) > Len(Strip(r.inlog))
+      \* D24: m(...0, g()) -- the literal spread stays in the call, g() is extracted in front of it: when the literal
+      \* is not iterable the input throws before g() runs.  Both are error-path reorderings: same outcome, and the
+      \* output's effects are the input's with extra ones inserted (the error may be caught inside the program, so
+      \* the tail need not be empty).  Only in programs where the static decider saw that shape.
+      \* (When the program catches the error itself, what the prematurely evaluated arguments did -- assignments,
+      \* calls -- changes everything that follows; such runs are attributed to the deviation as a whole.)
+      D22shape == /\ (D22 \in sdev \/ D24 \in sdev)
+                  /\ \/ r.inout = r.outout /\ OnlyExtraReads(r.inlog, r.outlog)
+                     \/ r.swallow
+      errDev == IF D22 \in sdev THEN D22 ELSE D24
   IN
   \* ---- C01
   /\ IF why = "" \/ callReadVsArgs THEN Verdict(r.rid, "C01", IF nontrivial THEN "ok" ELSE "ok0", r.sid)
@@ -42,7 +51,7 @@ Judge(r) ==
      ELSE IF D7b \in sdev THEN Verdict(r.rid, "C01", "dev", {D7b})
      ELSE IF D10 \in sdev /\ r.reenter THEN Verdict(r.rid, "C01", "dev", {D10})
      ELSE IF D21 \in sdev THEN Verdict(r.rid, "C01", "dev", {D21})
-     ELSE IF D22shape THEN Verdict(r.rid, "C01", "dev", {D22})
+     ELSE IF D22shape THEN Verdict(r.rid, "C01", "dev", {errDev})
      ELSE Verdict(r.rid, "C01", "reject", <<r.sid, why>>)
   \* ---- C03 (dynamic half)
   /\ IF hookwhys # {} /\ D20 \in sdev THEN Verdict(r.rid, "C03", "dev", {D20})
